@@ -1,11 +1,12 @@
 #!/bin/sh
 # tools/mutp.sh <seeded-id> <Cxx> [tier] : run a check against a scratch worktree of /repo HEAD with the seeded patch applied
 # (parallel-safe: /repo itself is not touched; evidence and replays of the run go to a scratch directory)
-id=$1; prop=$2; tier=${3:-quick}; d=/verif/seeded/$id; wt=/tmp/wt_mutp_$$_$id; sc=/tmp/mutp_out_$$_$id
+V=$(cd "$(dirname "$0")/.." && pwd)
+id=$1; prop=$2; tier=${3:-quick}; d=$V/seeded/$id; wt=/tmp/wt_mutp_$$_$id; sc=/tmp/mutp_out_$$_$id
 mkdir -p $sc
 git -C /repo worktree add -q --detach $wt HEAD || exit 3
 ( cd $wt && (git apply $d/patch.diff 2>/dev/null || patch -p1 -s --fuzz=3 < $d/patch.diff) ) || { echo "$id PATCH-DOES-NOT-APPLY"; git -C /repo worktree remove --force $wt; exit 4; }
 PYTHONPATH=$wt /venv/bin/python $d/demo.py >/dev/null 2>&1; demo=$?
-out=$(cd /verif && VERIF_REPO=$wt VERIF_EVIDENCE_DIR=$sc VERIF_REPLAY_DIR=$sc ./check $prop --tier $tier 2>&1); rc=$?
+out=$(cd $V && VERIF_REPO=$wt VERIF_EVIDENCE_DIR=$sc VERIF_REPLAY_DIR=$sc ./check $prop --tier $tier 2>&1); rc=$?
 git -C /repo worktree remove --force $wt; rm -rf $sc
 echo "== $id ($prop) demo_rc=$demo check_rc=$rc"; echo "$out" | grep -E "^(VIOLATION|MACHINERY)" | cut -c1-200 | head -4; echo "$out" | tail -1
